@@ -30,6 +30,18 @@ FACTS = {
  "wmul-comba": ("sub-agent wave 3 (minimal bias)", "widening_mul rewritten on 64-bit limbs loses a carry when a middle accumulator word is exactly u64::MAX: types wider than 96 bits, range size >= 2^64, a 2^-64 coincidence per product step for random words", "preimage_bound (R3) at 512..8192 bits via extreme words made of whole 00 / FF digits"),
  "divlu-rhat": ("sub-agent wave 3 (evasion)", "u64 digits with N >= 2, a Uniform constructor, and a range size for which a 128-by-64-bit quotient-digit estimate hits an exact 2^32 remainder (about 2^-33 for unstructured sizes; ~0.5% of sizes 2^k +- 2^j, ~1% of sizes made of all-ones digits): ints_to_reject is wrong, fibres differ by one word out of ~2^64 or more", "span probe (fibre_spans_differ) on multi-digit u64 types with run-of-ones / digit-pattern range sizes; about 3 expected detections per quick run, certain in the thorough tier"),
  "comba-spill": ("sub-agent wave 3 (evasion)", "u8 digits with N >= 258 (wider than 2056 bits) and dense operands (all-ones word x near-full-width range): the carry counter of the product-scanning widening_mul overflows", "panic (R2) in the dbg build and membership / preimage_bound in the rel build on BUintD8<320> / BUintD8<1024> (the widest u8-digit instantiations, added to the menu because of this change)"),
+ "w4-memo-width": ("sub-agent wave 4 (hidden state)", "Uniform::new_inclusive memoises 2^BITS mod range in a static inside the const-generic function (one entry, shared by every width of a digit type, key without the width): the same small non-power-of-two range (< 2^32) built back to back on two different widths > 128 bits of one type family, then a word at a rejection boundary", "interleaved-tasks mode, collision hunt (order_dependence / schedule_dependence): one type family, related ranges, words aimed at fibre ends"),
+ "w4-memo-interleave": ("sub-agent wave 4 (hidden state)", "sample_single_inclusive re-reads a memoised remainder from a static AFTER the RNG call, in the slow path: every single-threaded sequence is correct; needs a second caller with a different small range on the same digit type running while the first one is inside its RNG call, and a first-caller word in the slow path (lo > MAX - range)", "interleaved-tasks mode (schedule_dependence): the task is preempted at the RngCore seam inside the call; the word at the fibre end comes from the aimed-word source"),
+ "w4-memo-keypack": ("sub-agent wave 4 (hidden state)", "cache key `range ^ (BITS << 48)` with a gate that admits any 64-bit range: a constructed pair r1 ^ r2 == (W1 ^ W2) << 48 built back to back (accidental collision 2^-64)", "interleaved-tasks mode, collision hunt (order_dependence / schedule_dependence): the related-range mutation 'size XOR (difference of the two widths) at a byte position' produces the colliding pair"),
+ "w4-digitzone": ("sub-agent wave 4 (fast paths)", "64-bit digits with N > 2, Uniform object, range < 2^32: a shortcut zone test looks at the top and the lowest digit of `lo` only and rejects a z / 2^128 fraction of INTERIOR words of each block, unevenly over the values", "NOT CAUGHT: the wrongly rejected words are scattered inside the blocks at positions only the modular inverse of the range can aim at, and their number per value cannot be counted from outside (DESIGN 6.6)"),
+ "w4-narrowz": ("sub-agent wave 4 (fast paths)", "types of 256 bits and up, Uniform object, range that fits a u64: the sampler draws a u128 (two next_u64 requests) but reuses the stored 2^BITS mod r where 2^128 mod r is needed; wrong unless 2^BITS = 2^128 (mod r)", "span probe at the OBSERVED word size over multi-request attempts (fibre_spans_differ on 128-bit words)"),
+ "w4-modzone": ("sub-agent wave 4 (fast paths)", "types of 256 bits and up, gen_range / sample_single, range that fits a u64: `low + v % range` on a u128 word with acceptance `v <= zone` where the classic form needs `<`: one surplus word out of 2^128, value `low` has q + 1 preimages", "stride probe (fibre_strides_differ): modulo structure recognised, accepted steps k counted exactly by bisection over k"),
+ "w4-blockfill": ("sub-agent wave 4 (byte paths)", "slice fill in 64 KiB requests with the block/tail split computed from the constant instead of the element stride: integer byte size not dividing 65536 (24, 40, 96, 136, 192, 320 bits ...) and a slice of 64 KiB or more", "history refinement (R4) on boundary-sized fills"),
+ "w4-eintr-retry": ("sub-agent wave 4 (byte paths)", "fill retries EINTR/EAGAIN up to 4 attempts and then falls through to Ok(()): a burst of at least 4 consecutive errors with code exactly 4 or 11", "history refinement (R4) under a burst of four consecutive rng_err carrying an OS-style code"),
+ "w4-sample-requests": ("sub-agent wave 4 (byte paths)", "Standard for unsigned types in 256-byte requests, last partial block dropped: widths above 2048 bits that are not a multiple of 2048 (2560 bits = BUintD8<320> in the menu)", "history refinement (R4), slice_elementwise (R6), preimage_bound"),
+ "w4-c1-divlu": ("sub-agent wave 4 (helpers)", "half-digit long division for u64 digits with `r_hat > HALF_BASE` for `>=`: BUint/BInt with N >= 2, Uniform constructor, range below 2^64 hitting an exact-2^32 partial remainder (2^-32 per step for unstructured sizes; structured sizes such as 2^48 - 2 hit)", "span probe / division hunt (fibre_spans_differ)"),
+ "w4-c2-comba": ("sub-agent wave 4 (helpers)", "column-wise widening_mul whose three-digit accumulator drops its carry: u8 digits with N >= 258 and dense operands", "preimage_bound on BUintD8<320> / BUintD8<1024>"),
+ "w4-c3-maxdigit": ("sub-agent wave 4 (helpers)", "Knuth D without add-back when the quotient-digit estimate is Digit::MAX: Uniform constructor, N >= 3, a later division step whose true digit is MAX - 1 (never at 24 bits; 1 in 15 000 range sizes at 32 bits, 1 in 600 at 96 bits for u8 digits; 1 in 600 000 for u16 digits)", "division hunt / span probe (fibre_spans_differ); about 2-4 detections per quick run (missed by the first quick run that saw it, before the division-hunt mode existed), certain in the thorough tier"),
  "fill-chunks": ("sub-agent wave 3 (evasion)", "a slice whose byte length exceeds 65536 and is not a multiple of it: chunks_exact_mut leaves the tail unwritten while Ok(()) is returned", "history refinement (R4) on fills sized just above 65536 bytes"),
 }
 
@@ -60,7 +72,7 @@ for d in sorted(os.listdir(base)):
                          "cp %s tests/ && cargo test --offline --features rand%s --test %s   (with the change: fails; without: passes)" % (demo, rel, demo[:-3])],
             "result": "see confirm.txt: applies, builds both ways, pinned suite 1945 + 224 doctests pass with the change, demonstration fails with the change and passes without it"},
         "detection": {
-            "how_run": "tools/seeded_all.sh quick: git -C /repo apply patch.diff; ./check c20 --tier quick; replay the first file; git -C /repo checkout -- .; replay it again",
+            "how_run": ("tools/lanes.py: patch applied in a scratch worktree of /repo, both simulator builds rebuilt from it and run with the quick tier's seeds and split; first replay file re-executed on the patched build and on the pristine build" if "lanes.py" in det else "tools/seeded_all.sh quick: git -C /repo apply patch.diff; ./check c20 --tier quick; replay the first file; git -C /repo checkout -- .; replay it again"),
             "caught": "exit=1" in det,
             "first_caught_by": caught,
             "violation_classes_reported": classes,
